@@ -463,7 +463,11 @@ def api_phase(run: Run, tier: str, corr: list) -> None:
     cases = []
     for s in specs:
         s["spec"] = s["gtext"] + "".join("where " + G.cons_text(p) + "\n" for p in s["programs"])
-        cases.append({"op": "api", "spec": s["spec"], "words": [eio.word_json(w) for w in s["words"]], "max_trees": 40})
+        # every other spec: each word is first parsed to exhaustion WITH control-flow nodes on the same object — what
+        # the plain request then yields must still be free of helper symbols (seeded change C04-1: the parse cache
+        # keeping the control-flow form under a key that does not say so)
+        cases.append({"op": "api", "spec": s["spec"], "words": [eio.word_json(w) for w in s["words"]], "max_trees": 40,
+                      "history": len(cases) % 2 == 1})
     quick = tier == "quick"
     answers = run_pool("harness.impl.c04_real", cases, nproc=12, per_case_s=60 if quick else 120,
                        hard_s=400 if quick else 1500)
